@@ -531,7 +531,9 @@ def setsubj_rule(ctx, model):
         ctx.functions_analysed.add(fn.qual)
     n_total = 0
     for shape, fset, fmem, refs in shapes:
-        for op in model.opvalues((None, 1)):
+        # limit 0 as well as 1: on the two-member subjects over 0..2 only limit 0 separates "every member is within the limit"
+        # from "the outermost members are" ({[0,2),[1,1)} in [0,2))
+        for op in model.opvalues((None, 0, 1)):
             v = op.variant
             allv = bool(op.fields.get("all"))
             neg = bool(op.fields.get("negate"))
